@@ -24,3 +24,5 @@ register("C14", lean_modules=["GtModel.Props.C14"], gen=_gt.gen_cli_tables, stre
          trusted=["file-type tables regenerated from /repo by harness/gentables.py"])
 
 register("C13", lean_modules=[], theorems=[], streams=["matrix"])
+
+register("C09", lean_modules=["GtModel.Model.Formats"], theorems=[], streams=["formats"])
